@@ -18,7 +18,9 @@ def run(tier, seed, replay):
         r, sem, cost = ic.run_suite(s, workers=(12 if s == "alu" else None), xmx=("24g" if s == "alu" else "16g"))
         states += r.distinct
         trans += r.generated
-        per_suite[s] = {"states": r.distinct, "semantic_mismatches": len(sem), "cost_only_mismatches": len(cost)}
+        per_suite[s] = {"states": r.distinct, "semantic_mismatches": len(sem), "cost_mismatches": len(cost)}
+        if s in ("shapes1", "shapes2", "addr", "alupairs"):
+            per_suite[s]["replayed_on_real_machine"] = ic.replay_seeds(v, r.out, "c01-" + s, every=(3 if tier == "quick" and s != "shapes2" else 1))
         seen = set()
         for m in sem:
             key = "isa:op=0x%02X" % m["bytes"][0] if "bytes" in m else "isa:unparsed"
